@@ -14,7 +14,14 @@
 (* a square structuring element with half-length radius.  Radius = 1       *)
 (* corresponds to a 3x3 square morphological dilation."  Specified on the  *)
 (* cell set: a cell of the rows x cols matrix is filled afterwards iff a   *)
-(* filled cell lies within Chebyshev distance radius of it.                *)
+(* filled cell lies within Chebyshev distance radius of it.  The six rules *)
+(* admit windows whose rows are far apart (row 0 = [0,1), row 1 = [4,5));  *)
+(* their morphological dilation can have a gap in a row and is then not a  *)
+(* window at all (TLC finds the first example at 2 x 5).  Where the        *)
+(* dilation is a window (always for windows whose consecutive rows touch,  *)
+(* T_Dilate) the result is fixed exactly; elsewhere the documentation      *)
+(* contradicts itself and only laws are demanded: a valid window of the    *)
+(* same size that contains the dilation.                                   *)
 (*                                                                         *)
 (* upsample: "returns a new, larger window that is an upscaled version of  *)
 (* this window."  This is all the documentation says.  The specification   *)
@@ -38,7 +45,8 @@ CONSTANTS MaxDim,      \* windows of up to MaxDim x MaxDim are enumerated
           ChainDim,    \* call sequences are continued for windows up to ChainDim x ChainDim
           ChainLen,    \* length of call sequences
           InvRows,     \* isValid: stride lists of 1..InvRows rows
-          InvVal       \* isValid: start/end values 0..InvVal
+          InvVal,      \* isValid: start/end values 0..InvVal
+          Parts, Part  \* windows with more than 9 cells of matrix are explored if Hash % Parts = Part (1, 0: all)
 
 Abs(x) == IF x < 0 THEN -x ELSE x
 MinOf(S) == CHOOSE x \in S : \A y \in S : x <= y
@@ -71,17 +79,30 @@ MatrixValid(S, R, C) ==
                          /\ MaxOf(cs) >= MaxOf(RowCols(S, r - 1))              \* 4
     /\ <<0, 0>> \in S                                                          \* 5
     /\ <<R - 1, C - 1>> \in S                                                  \* 6
-StridesOf(S, R) == [r \in 1..R |-> <<MinOf(RowCols(S, r - 1)), MaxOf(RowCols(S, r - 1)) + 1>>]
+\* (TLC evaluates operator arguments and LET definitions again at every use: values that are used
+\* more than once are bound by a one-element set, "x \in {e}")
+RowStride(S, r) == CHOOSE st \in {<<MinOf(cs), MaxOf(cs) + 1>> : cs \in {RowCols(S, r)}} : TRUE
+RECURSIVE StridesUpTo(_, _)
+StridesUpTo(S, r) == IF r = 0 THEN <<>> ELSE Append(StridesUpTo(S, r - 1), RowStride(S, r - 1))
+StridesOf(S, R) == StridesUpTo(S, R)
 
 \* ---- the documented operations, on cell sets ------------------------------------
 DilateCells(S, R, C, rad) ==
     {p \in (0..(R - 1)) \X (0..(C - 1)) :
         \E q \in S : Abs(p[1] - q[1]) <= rad /\ Abs(p[2] - q[2]) <= rad}
-Dilate(w, rad) == StridesOf(DilateCells(Cells(w), Rows(w), Cols(w), rad), Rows(w))
+\* every row of S is one non-empty run of columns: S can be written as strides
+Representable(S, R) ==
+    \A r \in 0..(R - 1) : \A cs \in {RowCols(S, r)} : cs # {} /\ Cardinality(cs) = MaxOf(cs) - MinOf(cs) + 1
+\* consecutive rows share a column or are diagonal neighbours (every window built from a warp path)
+Connected(w) == \A r \in 2..Len(w) : w[r][1] <= w[r - 1][2]
+\* the strides of the dilation (its row-wise hull where it is not representable)
+Dilate(w, rad) ==
+    CHOOSE x \in {StridesOf(Dd, Rows(w)) : Dd \in {DilateCells(S, Rows(w), Cols(w), rad) : S \in {Cells(w)}}} : TRUE
 \* integer scale factors: every cell becomes a kr x kc block
 BlockCells(S, R, C, kr, kc) ==
     {p \in (0..(kr * R - 1)) \X (0..(kc * C - 1)) : <<p[1] \div kr, p[2] \div kc>> \in S}
-UpsampleInt(w, kr, kc) == StridesOf(BlockCells(Cells(w), Rows(w), Cols(w), kr, kc), kr * Rows(w))
+UpsampleInt(w, kr, kc) ==
+    CHOOSE x \in {StridesOf(B, kr * Rows(w)) : B \in {BlockCells(S, Rows(w), Cols(w), kr, kc) : S \in {Cells(w)}}} : TRUE
 IsMultiple(w, nr, nc) == nr % Rows(w) = 0 /\ nc % Cols(w) = 0
 
 \* ---- state ----------------------------------------------------------------------
@@ -99,6 +120,8 @@ Init ==
        \/ ph = "inv" /\ R = 0 /\ C = 0
 
 \* build every valid window of R x C row by row
+RECURSIVE Hash(_)
+Hash(x) == IF x = <<>> THEN 0 ELSE 3 * Head(x)[1] + 5 * Head(x)[2] + Len(x) + Hash(Tail(x))
 Build ==
     /\ ph = "build" /\ Len(w) < R
     /\ \E s \in 0..(C - 1), e \in 1..C :
@@ -106,14 +129,20 @@ Build ==
          /\ IF Len(w) = 0 THEN s = 0 ELSE s >= w[Len(w)][1] /\ e >= w[Len(w)][2]
          /\ Len(w) = R - 1 => e = C
          /\ w' = Append(w, <<s, e>>)
+         /\ (Len(w) = R - 1 /\ R * C > 9) => Hash(w') % Parts = Part
     /\ ph' = IF Len(w) = R - 1 THEN "run" ELSE "build"
     /\ w0' = IF Len(w) = R - 1 THEN w' ELSE w0
     /\ UNCHANGED <<R, C, done, h>>
 
 DilateStep(rad, last) ==
-    /\ w' = Dilate(w, rad)
-    /\ h' = Append(h, [a |-> "Dilate", rad |-> rad, want |-> w'])
-    /\ done' = last
+    \E Dd \in {DilateCells(Cells(w), Rows(w), Cols(w), rad)} :
+      IF Representable(Dd, Rows(w))
+      THEN /\ w' = StridesOf(Dd, Rows(w))
+           /\ h' = Append(h, [a |-> "Dilate", rad |-> rad, exact |-> TRUE, want |-> w'])
+           /\ done' = last
+      ELSE /\ w' = w          \* want: the row-wise hull of the dilation, a lower bound of the result
+           /\ h' = Append(h, [a |-> "Dilate", rad |-> rad, exact |-> FALSE, want |-> StridesOf(Dd, Rows(w))])
+           /\ done' = TRUE
 UpsampleStep(nr, nc, last) ==
     /\ nr >= Rows(w) /\ nc >= Cols(w)
     /\ IF IsMultiple(w, nr, nc)
@@ -158,30 +187,33 @@ Next == Build \/ First \/ Later \/ Finish \/ Inv
 
 \* ---- theorems (INVARIANTs) ------------------------------------------------------
 Fresh == ph = "run" /\ Len(h) = 0          \* a newly built window
-S0 == Cells(w)
 \* the two statements of validity agree, and the stride form is a faithful representation
 T_Repr ==
-    Fresh => /\ StridesValid(w, R, C) /\ MatrixValid(S0, R, C)
+    Fresh => \A S0 \in {Cells(w)} :
+             /\ StridesValid(w, R, C) /\ MatrixValid(S0, R, C)
              /\ Rows(w) = R /\ Cols(w) = C /\ StridesOf(S0, R) = w
 T_InvRepr ==     \* on arbitrary stride lists with non-empty rows: StridesValid <=> MatrixValid of the cells
     (ph = "inv" /\ Len(w) >= 1 /\ \A r \in 1..Len(w) : w[r][1] < w[r][2]) =>
         \A c \in 1..(InvVal + 1) : StridesValid(w, Len(w), c) <=> MatrixValid(Cells(w), Len(w), c)
-\* dilation: valid result of the same size, radius 0 is the identity, monotone in the radius,
-\* extensive, radii add up, a radius >= both dimensions fills the matrix
+\* dilation: extensive, radius 0 is the identity, monotone in the radius, radii add up, a radius >=
+\* both dimensions fills the matrix; a window whenever it has no gaps in a row, which is the case
+\* for every connected window
 T_Dilate ==
-    Fresh =>
+    Fresh => \A S0 \in {Cells(w)} :
       /\ \A rad \in 0..MaxRad :
            \A D \in {DilateCells(S0, R, C, rad)} :      \* (bound once: TLC re-evaluates LET definitions at every use)
-               /\ MatrixValid(D, R, C) /\ S0 \subseteq D
+               /\ S0 \subseteq D
+               /\ Representable(D, R) => MatrixValid(D, R, C) /\ Cells(Dilate(w, rad)) = D
+               /\ Connected(w) => Representable(D, R)
+               /\ StridesValid(Dilate(w, rad), R, C) /\ D \subseteq Cells(Dilate(w, rad))     \* the hull is a window
                /\ rad = 0 => D = S0
                /\ rad > 0 => DilateCells(S0, R, C, rad - 1) \subseteq D
                /\ (rad >= R - 1 /\ rad >= C - 1) => D = (0..(R - 1)) \X (0..(C - 1))
-               /\ Cells(Dilate(w, rad)) = D
       /\ \A a \in 1..MaxRad, b \in 1..MaxRad :
-           a + b <= MaxRad => DilateCells(DilateCells(S0, R, C, a), R, C, b) = DilateCells(S0, R, C, a + b)
+           a + b <= MaxRad => \A Da \in {DilateCells(S0, R, C, a)} : DilateCells(Da, R, C, b) = DilateCells(S0, R, C, a + b)
 \* integer upsampling: valid window of the new size, identity for factor 1, factors multiply
 T_Upsample ==
-    Fresh =>
+    Fresh => \A S0 \in {Cells(w)} :
       \A kr \in 1..2, kc \in 1..2 :
         \A B \in {BlockCells(S0, R, C, kr, kc)} :
             /\ MatrixValid(B, kr * R, kc * C)
